@@ -251,7 +251,7 @@ var checks = []Check{
 			{Pkg: "proc/redis/hotkey", Scenarios: []string{"C19/evict-states"}, Shards: 1, QuickS: 60, ThoroughS: 120},
 			{Pkg: "proc/redis/hotkey", Scenarios: []string{"C19/counter", "C19/insert"}, Shards: 1, QuickS: 60, ThoroughS: 240},
 			{Pkg: "proc/redis/hotkey", Scenarios: []string{"C19/collector"}, Shards: 16, QuickS: 60, ThoroughS: 240},
-			{Pkg: "proc/redis/hotkey", Scenarios: []string{"C19/concurrent", "C19/latch-concurrent"}, Shards: 8, QuickS: 60, ThoroughS: 240},
+			{Pkg: "proc/redis/hotkey", Scenarios: []string{"C19/concurrent", "C19/latch-concurrent", "C19/shared-counter"}, Shards: 8, QuickS: 60, ThoroughS: 240},
 			{Pkg: "proc/redis", Scenarios: []string{"C19/hotkey-command"}, Shards: 7, QuickS: 60, ThoroughS: 120},
 			{Pkg: "proc/redis/hotkey", Scenarios: []string{"C19/collector-race"}, Race: true, Shards: 1, QuickS: 60, ThoroughS: 240},
 		},
